@@ -6,6 +6,8 @@ CONSTANTS
   MethodSet <- MCMethods
   BudgetSet <- MCBudgets
   StepSet <- MCSteps
+  LaterMethods <- MCMethods
+  LaterSteps <- MCSteps
   OkTail <- MCOkTail
   MaxFaultKinds = 1
   ReuseCfg = TRUE
